@@ -19,7 +19,16 @@ import (
 // C05: readervec replays the behaviours of MC_Reader.tla with a scripted reader;
 // readertrace logs every Read call of the real DetectReader for TraceReader.tla.
 
-var errSentinel = errors.New("verif: injected read fault")
+var errSentinel error = errors.New("verif: injected read fault")
+
+// tempFault is the same injected fault dressed as a "temporary" error (EAGAIN / timeout style)
+type tempFault struct{}
+
+func (tempFault) Error() string   { return "verif: injected temporary read fault" }
+func (tempFault) Temporary() bool { return true }
+func (tempFault) Timeout() bool   { return true }
+
+var errTemp error = tempFault{}
 
 type readerVec struct {
 	D   int                    `json:"d"`
@@ -44,6 +53,7 @@ type scriptedReader struct {
 	unit  int
 	extra int // Read calls beyond the script
 	short int // room smaller than the scripted reply
+	fault error
 	rooms []int
 }
 
@@ -66,7 +76,7 @@ func (s *scriptedReader) Read(p []byte) (int, error) {
 	case "EOF":
 		return k, io.EOF
 	case "Fault":
-		return k, errSentinel
+		return k, s.fault
 	}
 	return k, nil
 }
@@ -119,7 +129,11 @@ func readervecMain(args []string) int {
 				data := exact(payload[:v.D*unit])
 				limit := uint32(v.L * unit)
 				mimetype.SetLimit(limit)
-				sr := &scriptedReader{data: data, steps: steps, unit: unit}
+				want := errSentinel
+				if (int(n)+pi)%2 == 1 {
+					want = errTemp
+				}
+				sr := &scriptedReader{data: data, steps: steps, unit: unit, fault: want}
 				got, gerr := mimetype.DetectReader(sr)
 				n++
 				key := fmt.Sprintf("payload=%d data=%d limit=%d fault=%d script=%v", pi, len(data), limit, v.F*unit, steps)
@@ -134,7 +148,7 @@ func readervecMain(args []string) int {
 				}
 				if v.E == "Fault" {
 					faults++
-					if gerr != errSentinel {
+					if gerr != want {
 						bad("fault-not-surfaced", fmt.Sprintf("reader failed before the header was complete; DetectReader returned err=%v type=%s", gerr, got))
 					} else if got == nil || got.String() != "application/octet-stream" || got.Parent() != nil {
 						bad("fault-with-type", fmt.Sprintf("error returned together with %s", got))
